@@ -281,7 +281,7 @@ Lemma claim_step_gen s c cs a side n cmd o npid mbox d1 d2 :
 Proof.
   intros Hl Hb Hdc Ht Hn Ecb Eob L1 L2.
   rewrite (step_cmd cfg s c cmd o TClaim cs Hl Ht).
-  set (s0 := set_log s [LFrame c (FAck (m_id cmd)) (is_clean s)]).
+  set (s0 := set_log s [LFrame c (FAck (m_id cmd)) (is_clean s) (now s)]).
   rewrite (dispatch_bound cfg c TClaim cmd o s0 a side)
     by (try discriminate; unfold conn_of, s0; cbn [conns set_log]; rewrite Hl; exact Hb).
   rewrite (handle_claim_eval c a side cmd o n s0 cs npid mbox d1 d2 Hl Hn Hdc Ecb Eob).
@@ -313,7 +313,7 @@ Proof.
   destruct HS as [Hdb [Hcw Hcu] _ _ _ _].
   unfold erroneous in Herr. rewrite Ht, Hb, Hn in Herr.
   rewrite (step_cmd cfg s c msg o TClaim cs Hlk Ht).
-  set (s1 := set_log s [LFrame c (FAck (m_id msg)) (is_clean s)]).
+  set (s1 := set_log s [LFrame c (FAck (m_id msg)) (is_clean s) (now s)]).
   assert (Hco : conn_of s1 c = cs) by (unfold conn_of; cbn; rewrite Hlk; reflexivity).
   rewrite (dispatch_bound cfg c TClaim msg o s1 a side); try discriminate;
     [|rewrite Hco; exact Hb].
@@ -459,7 +459,7 @@ Proof.
   intros Hl Hb Hmb Ht Hm Eob Hle Hns.
   apply le2_ltb in Hle.
   rewrite (step_cmd cfg s c cmd o TOpen cs Hl Ht).
-  set (s0 := set_log s [LFrame c (FAck (m_id cmd)) (is_clean s)]).
+  set (s0 := set_log s [LFrame c (FAck (m_id cmd)) (is_clean s) (now s)]).
   rewrite (dispatch_bound cfg c TOpen cmd o s0 a side)
     by (try discriminate; unfold conn_of, s0; cbn [conns set_log]; rewrite Hl; exact Hb).
   unfold handle_open. rewrite bind_get_conn. unfold conn_of.
@@ -514,7 +514,7 @@ Lemma open_not_held s c cs a side m msg o :
 Proof.
   intros Hl Hb Hmb Ht Hm Hcase a' m'.
   rewrite (step_cmd cfg s c msg o TOpen cs Hl Ht).
-  set (s0 := set_log s [LFrame c (FAck (m_id msg)) (is_clean s)]).
+  set (s0 := set_log s [LFrame c (FAck (m_id msg)) (is_clean s) (now s)]).
   rewrite (dispatch_bound cfg c TOpen msg o s0 a side)
     by (try discriminate; unfold conn_of, s0; cbn [conns set_log]; rewrite Hl; exact Hb).
   unfold handle_open. rewrite bind_get_conn. unfold conn_of.
@@ -685,7 +685,7 @@ Lemma release_step_gen s c cs a side n cmd o :
 Proof.
   intros Hdb Hc Hl Hb Hdr Hnm Ht Hn.
   rewrite (step_cmd cfg s c cmd o TRelease cs Hl Ht).
-  set (s0 := set_log s [LFrame c (FAck (m_id cmd)) (is_clean s)]).
+  set (s0 := set_log s [LFrame c (FAck (m_id cmd)) (is_clean s) (now s)]).
   rewrite (dispatch_bound cfg c TRelease cmd o s0 a side)
     by (try discriminate; unfold conn_of, s0; cbn [conns set_log]; rewrite Hl; exact Hb).
   unfold handle_release. rewrite bind_get_conn. unfold conn_of.
@@ -934,7 +934,7 @@ Proof.
   { unfold erroneous in Herr. rewrite Ht, Hb in Herr. apply orb_false_iff in Herr. exact Herr. }
   destruct Hdc as [Hdc Hnm].
   rewrite (step_cmd cfg s c msg o TClose cs Hl Ht).
-  set (s0 := set_log s [LFrame c (FAck (m_id msg)) (is_clean s)]).
+  set (s0 := set_log s [LFrame c (FAck (m_id msg)) (is_clean s) (now s)]).
   rewrite (dispatch_bound cfg c TClose msg o s0 a side)
     by (try discriminate; unfold conn_of, s0; cbn [conns set_log]; rewrite Hl; exact Hb).
   rewrite (handle_close_held cfg c a side msg s0 cs h Hl Hdc Hnm Hmb Hlis).
